@@ -293,6 +293,13 @@ package pubsub
 //@   loop 1 step hello-first: received(p.newPeerStream) > iter(received(p.newPeerStream)) && !blk[lastret(Conn.RemotePeer)] && iter(p.peers) != nil && lastret(Conn.RemotePeer) in p.peers ==>
 //@        calls((*PubSub).getHelloPacket) == iter(calls((*PubSub).getHelloPacket)) + 1 && calls(PubSubRouter.OnNewOutboundStream) == iter(calls(PubSubRouter.OnNewOutboundStream)) + 1 &&
 //@        lastarg(PubSubRouter.OnNewOutboundStream, 3) == lastret((*PubSub).getHelloPacket)
+//@   loop 1 step refused-stream-is-reset: forall q string :: received(p.newPeerStream) > iter(received(p.newPeerStream)) && q == lastret(Conn.RemotePeer) && (blk[q] || !iter(q in p.peers)) ==>
+//@        calls(dyn:Cancel) == iter(calls(dyn:Cancel)) + 1 && calls(Stream.Reset) == iter(calls(Stream.Reset)) + 1
+//@   loop 1 step unknown-peer-stream-refused: forall q string :: received(p.newPeerStream) > iter(received(p.newPeerStream)) && q == lastret(Conn.RemotePeer) && !iter(q in p.peers) ==>
+//@        calls((*PubSub).getHelloPacket) == iter(calls((*PubSub).getHelloPacket)) && calls(PubSubRouter.OnNewOutboundStream) == iter(calls(PubSubRouter.OnNewOutboundStream)) &&
+//@        !(q in p.peers)
+//@   loop 1 step hello-handed-to-the-writer: forall q string :: received(p.newPeerStream) > iter(received(p.newPeerStream)) && q == lastret(Conn.RemotePeer) && !blk[q] && iter(q in p.peers) ==>
+//@        (exists o *peerOutgoingStream :: sent(o.FirstMessage) == iter(sent(o.FirstMessage)) + 1 && lastsent(o.FirstMessage) == lastret(PubSubRouter.OnNewOutboundStream))
 //@   loop 1 step blacklist-only-by-request: received(p.blacklistPeer) == iter(received(p.blacklistPeer)) ==> calls(Blacklist.Add) == iter(calls(Blacklist.Add))
 
 // ---- remote interest bookkeeping (p.topics) ----
@@ -329,6 +336,9 @@ package pubsub
 //@   ensures router-told: calls(PubSubRouter.OnClosedIncomingStream) == old(calls(PubSubRouter.OnClosedIncomingStream)) + 1 &&
 //@        lastarg(PubSubRouter.OnClosedIncomingStream, 1) == pid && lastarg(PubSubRouter.OnClosedIncomingStream, 2) == proto
 
+// The two pending-report sets are private to their handlers (nothing else is handed them).
+//@ owns PubSub: peerDeadPend, newPeersPend
+
 // handleDeadPeers: every peer reported dead that still has an outbound queue loses it: the
 // queue is closed, the peer's topic state is cleared and the router is told, exactly once each;
 // a peer that is still connected gets a NEW queue (never the closed one); peers not reported
@@ -351,6 +361,9 @@ package pubsub
 //@   loop 1 step unknown-peer-ignored: forall q string :: q == pid && !iter(q in p.peers) ==>
 //@        calls((*rpcQueue).Close) == iter(calls((*rpcQueue).Close)) && calls(PubSubRouter.OnClosedOutboundStream) == iter(calls(PubSubRouter.OnClosedOutboundStream)) && !(q in p.peers)
 //@   ensures no-stale-queue: forall q string :: q in p.peers ==> old(q in p.peers) && (p.peers[q] == old(p.peers[q]) || fresh(p.peers[q]))
+// (not stated: that the loop ranges over exactly the set of reports pending at entry - the taken
+// map has the type of the topic peer maps that clearPeerFromTopicsState edits, and the frame needed
+// to keep it apart was not written)
 
 // handlePendingPeers: a pending peer gets an outbound queue only if it is connected, not yet
 // known and not blacklisted; every queue created gets its writer goroutine; known peers keep
@@ -369,6 +382,11 @@ package pubsub
 //@   loop 1 step writer-only-for-new-queue: forall q string :: q == pid && (iter(q in p.peers) || !(q in p.peers)) ==>
 //@        calls(go:(*PubSub).handleNewPeer) == iter(calls(go:(*PubSub).handleNewPeer))
 //@   ensures known-kept: forall q string :: old(q in p.peers) ==> q in p.peers && p.peers[q] == old(p.peers[q])
+//@   loop 1 step queue-only-for-connected-peer: forall q string :: q == pid && !iter(q in p.peers) && q in p.peers ==> lastret(Network.Connectedness) == network.Connected
+//@   loop 1 step connected-unlisted-peer-gets-a-queue: forall q string :: q == pid && !iter(q in p.peers) && lastret(Network.Connectedness) == network.Connected &&
+//@        calls(Blacklist.Contains) > iter(calls(Blacklist.Contains)) && !lastret(Blacklist.Contains) ==> q in p.peers
+//@   ensures every-pending-peer-considered: forall q string :: old(q in p.newPeersPend) ==> $visited#1[q]
+//@   ensures pending-consumed: len(p.newPeersPend) == 0
 
 // publishMessageBatch: every message of the batch is delivered locally exactly once (one
 // DELIVER_MESSAGE, one notifySubs, in order); only the messages that are not local-only are
